@@ -47,8 +47,26 @@ CLAIMS = {
          "(thousands of histories with d at random positions: syntactic stabilisation, constant Display length, meaning equality by validated witnesses).", "6/C09"),
  "C10": ("Six theorems prove reflexivity, optional widening, null-in-optional and the similar laws for ALL well-formed shapes; model tied to /repo by "
          "all 103041 level-1 pairs plus random deep related pairs; statements re-evaluated on the implementation's own answers.", "6/C10"),
+ "C13": ("Theorems (Properties/C13.v): for EVERY shape in the decidable class good_names (emitted definition names pairwise distinct, snake-cased member names legal and distinct, variant names distinct, no nested optional array, tuples <= 12 wide) the generated items form a well-formed module "
+         "(every referenced type is standard at its arity or defined exactly once; names legal) - proved by structural induction over all shapes; wf_module = header_ok under that class. Seven `_refuted` theorems exhibit the defect classes of the unchanged code "
+         "(F12 header: forall s, wf_module = false; F13 Optional<Vec; F15 repeated sub-shape; KF4 collision; illegal / clashing member names; variant clash; 13-tuple); C13_gen_wf_after_F15 proves the repaired (deduplicating) emission needs only the local conditions. Correspondence: render hook and compile_json file bytes byte-for-byte on level-1, corner, random and inferred shapes; "
+         "oracle: independent name-resolution check = extracted wf_items on the parsed REAL text = model prediction, every case; thorough: real rustc per case and one-crate batches agree with wf_items / wf_module.", "6/C13"),
+ "C14": ("Theorem C14_decode_gen_partial: for EVERY shape in the decidable class decodable, reading the generated items back (decode) yields the shape with member names snake-cased (erase) - structural induction, no bounds; four `_refuted` witnesses "
+         "(root flag dropped, Optional<Vec, name collision, 1-tuples). Correspondence: render byte-for-byte; parsed real text = model item list; oracle: extracted decode on the implementation's real output vs erase(shape), classified by the same decodable predicate.", "6/C14"),
+ "C15": ("Theorem C15_deser_sources_partial (structural induction over ALL shapes, no bounds): under the model of serde's derived (de)serialization for exactly the generated item forms, every member document (Sem.mem) without a repeated member name of every shape in the decidable class "
+         "c15_class (good_names, decodable, OneOf-free, member names snake-stable, no Null-typed member, no empty object) deserializes into the generated root type and re-serializes to an approx-equal document (kinds; explicit nulls for absent optional members). Six `_refuted` theorems exhibit the classes "
+         "outside it (externally tagged enums, missing rename, Null-typed member, dropped root Option, empty object = unit struct, duplicate member). The serde model is an external library's behaviour: validated in the thorough tier by compiling and RUNNING the generated code on the sources and on foreign documents "
+         "(3089 pairs, model = real outcome incl. re-serialized document); that run found the unit-struct class.", "6/C15"),
+ "C16": ("Theorems (Properties/C16.v): out_path = macro_path for dot-free collection names (all directories not ending in '/'), refuted for dotted names (F14) and proved for ALL non-absolute names for the repaired path (C16_paths_agree_after_F14); equal shapes get equal names, injectivity refuted (KF4); a successful compile_json_m writes exactly one file = header ++ returned text at out_path; "
+         "read / inference errors and panics write nothing; empty source lists yield an error - for any inference function. Correspondence: shape_name / shape_representation / render hooks, convert_case Snake/Pascal and CRC-32 {:X} on ~50k strings, compile_json (real files, OUT_DIR set/unset/dotted/spaced) against compile_json_m incl. stdout lines; "
+         "oracle: bytes twice in one process and in two processes, single file at the macro's path, no file on error, name collision search.", "6/C16"),
 }
-PARTIAL = {"C12": "Partial by nature: allocator, stack and wall-clock are runtime; the theorems bound call counts, allocations are measured.", "C03": "Partial: the theorem covers exactly the complement of the known class KF2 (merged shape OneOf-free); inside KF2 the property is refuted by witness.", "C09": "Partial: the theorem covers the pairwise core and the 'd is the last source' case; semantic absorption for d in the middle of h is not a theorem."}
+PARTIAL = {"C12": "Partial by nature: allocator, stack and wall-clock are runtime; the theorems bound call counts, allocations are measured.", "C03": "Partial: the theorem covers exactly the complement of the known class KF2 (merged shape OneOf-free); inside KF2 the property is refuted by witness.", "C09": "Partial: the theorem covers the pairwise core and the 'd is the last source' case; semantic absorption for d in the middle of h is not a theorem.",
+ "C13": "Partial: 'wf_module implies rustc accepts' is validated on rustc batches, not proved; codegen / convert_case / checksum are modelled (printable-ASCII member names) and validated by correspondence. ",
+ "C14": "Partial: the item parser applied to the real text is Python (validated against the model's item list on every case). ",
+ "C15": "Partial: serde_derive / serde_json are external - modelled (Model/Gen.v deser/reser) and validated by compile-and-run batches in the thorough tier; modules are judged with the header defect F12 neutralised (as written none compiles). ",
+ "C16": "Partial: determinism of the real code is a run-time observation (two runs, two processes); the text-level behaviour of json_shape 0.5.1 enters compile_json_m as a function argument. ",
+}
 
 def chk(pid):
     text, ref = CLAIMS[pid]
